@@ -387,6 +387,11 @@ def scans(ctx):
     ctx.add(core.decided('C30/closed-world/PR.merge-is-called-only-by-try_to_merge', mcalls == ['try_to_merge'], repr(mcalls), kind='scan'))
 
 
+def native_witness(ctx):
+    """concrete search on the real code, usable when the contracts no longer apply to a changed source (vc/check.py)"""
+    return core.run_native(open(os.path.join(os.path.dirname(__file__), 'native', 'c30_replay.py')).read(), {})
+
+
 def build(ctx):
     for c in (up_to_date(), mergeable(), update_batch(), update_from_gh_json(), update_github(True), update_github(False), try_to_merge(), merge()):
         e = pyvc.Engine(ctx, c).run()
